@@ -232,6 +232,8 @@ func tokText(t tok, cas int) (string, bool) {
 		return t.V, true
 	case "STR":
 		return "'" + t.V + "'", true
+	case "QID":
+		return `"` + t.V + `"`, true
 	case "LEX":
 		s, ok := lexClasses[t.V]
 		return s, ok
@@ -240,7 +242,9 @@ func tokText(t tok, cas int) (string, bool) {
 }
 
 // selfDelimiting: no white space is needed between such a token and its neighbours
-func selfDelimiting(t tok) bool { return t.T == "P" || t.T == "STR" }
+func selfDelimiting(t tok) bool { return t.T == "P" || t.T == "STR" || t.T == "QID" }
+
+func quoted(t tok) bool { return t.T == "STR" || t.T == "QID" }
 
 var wsCycle = []string{"\n", "\t", "  ", "\r\n", " \n\t "}
 
@@ -263,7 +267,8 @@ func render(ts []tok, cas, ws int) (string, error) {
 			case 1:
 				b.WriteString(wsCycle[i%len(wsCycle)])
 			case 2:
-				if !selfDelimiting(t) && !selfDelimiting(ts[i-1]) {
+				// two quoted tokens stay apart: a doubled quote is an escape in other SQL dialects
+				if (!selfDelimiting(t) && !selfDelimiting(ts[i-1])) || (quoted(t) && quoted(ts[i-1])) {
 					b.WriteByte(' ')
 				}
 			}
